@@ -256,6 +256,31 @@ let handle (line:string) : string =
   | "LIKE" :: p1 :: p2 :: ws ->
     let (a, b) = split_at ";" ws in
     if terms_are_like (expr_of a) (path_of p1) (expr_of b) (path_of p2) then "1" else "0"
+  | "HEAP" :: op :: target :: ws ->
+    (* node records separated by "|":  cls id val ident col l r p cn ct   ('-' = None; ct: '-' None, 'e' "", else dotted class tags) *)
+    let rec split_bar acc cur = function
+      | [] -> List.rev (List.rev cur :: acc)
+      | "|" :: r -> split_bar (List.rev cur :: acc) [] r
+      | x :: r -> split_bar acc (x :: cur) r in
+    let oaddr x = if x = "-" then None else Some (nat_of_int (int_of_string x)) in
+    let node_of = function
+      | [cls; id; v; ident; col; l; r; p; cn; ct] ->
+        { h_cls = n_of_int (int_of_string cls); h_id = n_of_int (int_of_string id); h_val = onum_of v; h_ident = ovar_of ident; h_col = (col = "1");
+          h_l = oaddr l; h_r = oaddr r; h_p = oaddr p; h_cn = oaddr cn;
+          h_ct = (if ct = "-" then None else if ct = "e" then Some [] else Some (List.map (fun x -> n_of_int (int_of_string x)) (String.split_on_char '.' ct))) }
+      | _ -> failwith "hnode" in
+    let heap = List.map node_of (List.filter (fun l -> l <> []) (split_bar [] [] ws)) in
+    let soa = function None -> "-" | Some a -> string_of_int (int_of_nat a) in
+    let str_node n = String.concat " " [str_n n.h_cls; str_n n.h_id; str_onum n.h_val; str_ovar n.h_ident; (if n.h_col then "1" else "0"); soa n.h_l; soa n.h_r; soa n.h_p; soa n.h_cn;
+                                        (match n.h_ct with None -> "-" | Some [] -> "e" | Some l -> String.concat "." (List.map str_n l))] in
+    let fin = function
+      | HOk (h, a) -> "OK " ^ string_of_int (int_of_nat a) ^ " | " ^ String.concat " | " (List.map str_node h)
+      | HFuel -> "FUEL" | HBad -> "BAD" in
+    let a = nat_of_int (int_of_string target) in
+    (match op with
+     | "clone" -> fin (clone (nat_of_int (List.length heap + 1)) heap a)
+     | "cfr" -> fin (clone_from_root heap a)
+     | _ -> "?")
   | "PROB" :: ws ->
     let (ps, ds) = split_at "|" ws in
     let draws = List.map z_of_string ds in
